@@ -1561,11 +1561,12 @@ def c20_builder_t(prog, lmax):
 def c07_builder_q(prog, lmax):
     # wire format of the constructors (unspecified via new, IPv4, Unix with sparse symbolic content) + one write,
     # with TLV value lengths as unbounded integers (complements the Kani harnesses' literal lengths)
-    return _builder(prog, {'C10'}, 'c07_wire_format', 1)
+    # C10 badness = wrong bytes; C09 badness = a build that fails although the encoding fits in 65535 bytes (also a C07 violation)
+    return _builder(prog, {'C10', 'C09'}, 'c07_wire_format', 1)
 
 
 def c07_builder_t(prog, lmax):
-    return _builder(prog, {'C10'}, 'c07_wire_format', 2)
+    return _builder(prog, {'C10', 'C09'}, 'c07_wire_format', 2)
 
 
 SPECS['C07'] = {'kinds': [], 'lmax': {'quick': 0, 'thorough': 0}, 'modular': 'c07_builder_q', 'modular_thorough': 'c07_builder_t', 'obligations': [], 'no_v1': True}
